@@ -4,8 +4,8 @@ from . import common as C
 
 MANIFEST = dict(
    technique="Lean 4 proof of the FinalizeIssue priority chain for arbitrary error maps + three translators regenerated on every run: (1) a go/ast catalogue of EVERY call in the library's source that creates an issue, reaches FinalizeIssue, parses a nested schema or copies a ParseContext, with the message sources each call hands on (Gen/IssueSites.lean); (2) the behavioural wiring of 60 issue leaves x 14 nesting positions under sentinel error maps (Gen/MsgWiring.lean), tied to (1) by the call stack captured when the message is resolved; (3) the locale x parameter table (Gen/LocaleTable.lean). Theorems are decided in Lean over the whole regenerated tables, and every cell of the run (source subsets, silent sources, issue-dependent maps, SetConfig histories, random nesting chains) is compared with the model's prediction",
-   text="finalize_priority proves, for arbitrary error-map functions, that FinalizeIssue's message is the first non-empty of check message, schema message, per-parse map, global custom map, locale, built-in text. c18_sites_partial (decide over the go/ast table of every issue-creating / finalising / nested-parse / context-copy call) and c18_sites_all_partial: every call hands on every source except what siteGaps lists for it, so a new call that forgets the context changes a proof obligation; c18_static_dynamic ties that table to the run. c18_wired_partial / c18_all_sites_partial: at every site of the behavioural catalogue and every configuration outside the listed gaps the message comes from the first configured source; dep_spec / dep_site extend this to maps that answer for some issues and decline others; nested_message / c18_every_depth (induction over the chain of positions, base case the per-site table, per-position table c18_positions_exact) give 'at every nesting depth'. c18_locales / c18_locales_cover / c18_locales_producible: every bundled locale returns a non-empty message over the full parameter table (origin x threshold x inclusive, format x detail, expected x input kind, keys, values, divisor, every code), whose columns include every kind the creation sites name in the source. The gaps are open known findings with witness theorems.",
-   note="Trusted: Lean kernel; axioms propext/Classical.choice/Quot.sound only; the Go harness (leaf catalogue, sentinel and issue-dependent maps, call-stack capture), the go/ast translator's classification of expressions (syntactic, no type checking: a context is 'the caller's' when it is derived from a parameter of the enclosing function), the writers of the Gen tables and the comparer. The behavioural leaves reach 22 of the 111 finalising calls; the others are covered by the static theorem only. Plain Union / Xor branches do not report their issues, so there is no message to attribute there (the matched variant of a discriminated union is covered).",
+   text="finalize_priority proves, for arbitrary error-map functions, that FinalizeIssue's message is the first non-empty of check message, schema message, per-parse map, global custom map, locale, built-in text. c18_sites_partial (decide over the go/ast table of every issue-creating / finalising / nested-parse / context-copy call) and c18_sites_all_partial: every call hands on every source except what siteGaps lists for it, so a new call that forgets the context changes a proof obligation; c18_static_dynamic ties that table to the run. c18_wired_partial / c18_all_sites_partial: at every site of the behavioural catalogue and every configuration outside the listed gaps the message comes from the first configured source; dep_spec / dep_site extend this to maps that answer for some issues and decline others; nested_message / c18_every_depth (induction over the chain of positions, base case the per-site table, per-position table c18_positions_exact) give 'at every nesting depth'. c18_locales / c18_locales_cover / c18_locales_producible: every bundled locale returns a non-empty message over the full parameter table (origin x threshold x inclusive, format x detail, expected x input kind, keys, values, divisor, every code), whose columns include every kind the creation sites name in the source. The gaps are open known findings with witness theorems. Round 4b: the driver predicts every cell through Msg.nestedMessage from the HAND-WRITTEN expectation (Model/MsgExpect.lean: listed gaps, expected forwarding), and c18_observed_eq_expected / c18_positions_forward / c18_gaps_tight (decide over the regenerated tables, equality) tie the observed behaviour to it; expected_message_eq / c18_every_depth_expected give every nesting depth for the executed definition. c18_sites_covered: every finalising call of the static table is reached by a leaf or a cell of the coverage search (runtime stack link), is dead code, or is listed with a reason; c18_static_dynamic_cells ties the search's observations to the static rows. c18_producible_closed / c18_creator_codes_columns / c18_sites_agree_with_creators / c18_creators_closed: the producible set is closed under the creators of internal/issues (C04's regenerated creator table).",
+   note="Trusted: Lean kernel; axioms propext/Classical.choice/Quot.sound only; the Go harness (leaf catalogue, sentinel and issue-dependent maps, call-stack capture), the go/ast translator's classification of expressions (syntactic, no type checking: a context is 'the caller's' when it is derived from a parameter of the enclosing function), the writers of the Gen tables and the comparer. 54 of the 107 finalising calls have a runtime witness (leaf or coverage cell), 10 are dead code, 43 are listed with a reason but not proved unreachable (defensive branches, or calls where no message source is consulted so the stack link cannot attribute them). Plain Union / Xor branches do not report their issues, so there is no message to attribute there (the matched variant of a discriminated union is covered).",
    design="DESIGN.md §5 C18; notes/C18.md")
 
 MODULES = ["Gozod.Proofs.C18", "Gozod.Proofs.C18Cover"]
@@ -16,8 +16,10 @@ THEOREMS = ["Gozod.C18." + t for t in [
     "setconfig_history", "setconfig_keeps_locale", "setconfig_keeps_custom", "crossed_setconfig_breaks_history",
     "site_priority", "dropSources_unconfigured", "c18_sites_partial", "c18_sites_all_partial", "c18_sites_full_false", "c18_static_dynamic",
     "c18_locales_producible", "dep_spec", "dep_site", "nested_message", "c18_every_depth", "c18_positions_exact",
+    "c18_observed_eq_expected", "c18_positions_forward", "c18_gaps_tight", "c18_wired_full_false_table", "expected_message_eq",
+    "c18_every_depth_expected", "c18_every_depth_expected_gap", "c18_gapless_leaves",
     "c18_sites_covered", "c18_sites_witnessed", "c18_producible_closed", "c18_creator_codes_columns", "c18_declared_codes_columns",
-    "c18_sites_agree_with_creators", "c18_creators_closed",
+    "c18_sites_agree_with_creators", "c18_creators_closed", "c18_static_dynamic_cells", "c18_reach_obs_nonvacuous",
 ]]
 
 GEN = os.path.join(C.LEAN, "Gozod", "Gen")
@@ -179,7 +181,7 @@ def filter_reach_ops(static, rundir):
     find = row_finder(static)
     ops = open(os.path.join(rundir, "ops.txt")).read().split("\n")
     impl = open(os.path.join(rundir, "impl.txt")).read().split("\n")
-    if len(ops) != len(impl): return
+    if len(ops) != len(impl): return []
     ko, ki = [], []
     for o, i in zip(ops, impl):
         t = o.split(" ")
@@ -190,8 +192,17 @@ def filter_reach_ops(static, rundir):
         ko.append(o); ki.append(i)
     open(os.path.join(rundir, "ops.txt"), "w").write("\n".join(ko))
     open(os.path.join(rundir, "impl.txt"), "w").write("\n".join(ki))
+    # the observations of the kept reach cells, as a table for the Lean side (c18_static_dynamic_cells)
+    obs = []
+    for o, i in zip(ko, ki):
+        t = o.split(" ")
+        if len(t) > 6 and t[1] == "reach":
+            ro, rf = find(t[2]), find(t[3])
+            if ro is not None and rf is not None and (ro["key"], rf["key"], t[6], i) not in obs:
+                obs.append((ro["key"], rf["key"], t[6], i))
+    return obs
 
-def gen_issue_sites(static, seen):
+def gen_issue_sites(static, seen, reach_obs=()):
     out = ["-- GENERATED on every run by vlib/c18.py from the go/ast translator harness/cmd/c18/sites.go (source of REPO) and, for the",
            "-- `reached` column and `leafSeen`, from the run (which FinalizeIssue call resolved each leaf's message; the raw issue the",
            "-- error maps were shown).  Do not edit.",
@@ -207,6 +218,10 @@ def gen_issue_sites(static, seen):
     out += ["]", "", "/-- leaf@position ↦ features of the raw issue the message sources are shown there -/", "def leafSeen : List (String × RawFeat) := ["]
     out.append(",\n".join("  (%s, ⟨%s, %s, %s⟩)" % (lean_str(l), lean_str(c), "true" if a == "1" else "false", "true" if b == "1" else "false")
                           for l, c, a, b, _ in seen))
+    out += ["]", "", "/-- the `c18 reach` cells of the run: (row of the first frame outside internal/issues, row of the caller of FinalizeIssue,",
+            "    the one source configured, the source whose sentinel was the message: s p g l, d = built-in) -/",
+            "def reachObs : List (String × String × String × String) := ["]
+    out.append(",\n".join("  (%s, %s, %s, %s)" % tuple(lean_str(x) for x in o) for o in reach_obs))
     out += ["]", "", "end Gozod.Gen", ""]
     return "\n".join(out)
 
@@ -370,11 +385,11 @@ def run(res):
         C.tie_broken(res, "translator C18/reach cells", "FinalizeIssue was reached from calls the go/ast translator does not list:\n" + "\n".join(unmatched[:20]))
         return res.finish()
     STATIC = static
-    filter_reach_ops(static, rundir)
+    reach_obs = filter_reach_ops(static, rundir)
     seen = [l.rstrip("\n").split("\t") for l in open(os.path.join(rundir, "seen.txt")) if l.strip()]
     ch1 = write_if_changed(os.path.join(GEN, "MsgWiring.lean"), gen_wiring(SITES))
     ch2 = write_if_changed(os.path.join(GEN, "LocaleTable.lean"), gen_locales(loc, producible_kinds(static)))
-    ch3 = write_if_changed(os.path.join(GEN, "IssueSites.lean"), gen_issue_sites(static, seen))
+    ch3 = write_if_changed(os.path.join(GEN, "IssueSites.lean"), gen_issue_sites(static, seen, reach_obs))
     res.notes.append("Gen/MsgWiring.lean %s, Gen/LocaleTable.lean %s, Gen/IssueSites.lean %s" % tuple("rewritten" if c else "unchanged" for c in (ch1, ch2, ch3)))
 
     # structure fingerprints of the hand-transcribed functions (FinalizeIssue, ExtractConfigLevelError, executeChecks, SetConfig, …):
@@ -412,7 +427,7 @@ def run(res):
         # the static table has calls that drop a source and are not listed: say which, and which leaves of the run reach them
         res.notes.append("static issue sites outside siteGaps (c18_sites_partial): " + "; ".join(
             "%s:%d drops %s [%s] reached by %s" % (st["key"], st["line"], dr, st["class"], ",".join(st["reached"]) or "no leaf of the run") for st, dr in aimed[:12]))
-    if not ok and not res.violations:
+    if not ok:
         if aimed:
             detail = ("go/ast site table: these calls do not hand on a source and are not listed in siteGaps (Proofs/C18.lean):\n" + "\n".join(
                 "  %s (line %d, %s): drops %s; ctx=%s cfg=%s inst=%s msg=%s; reached by leaves: %s" % (st["key"], st["line"], st["class"], dr, st["ctx"], st["cfg"], st["inst"], st["msg"],
